@@ -1488,6 +1488,9 @@ class Fifo(Template[_FifoArgs]):
 
     def __init__(self, *, name="fifo", delay=None, rx_delay=None, tx_delay=None):
         count = self._count_
+        # the ring buffer holds count-1 elements, with a single cell
+        # the write index would leave the memory
+        assert count >= 2, "Fifo needs at least two memory cells"
         self._max_index = count - 1
         CounterType = Unsigned.upto(self._max_index)
 
